@@ -186,7 +186,7 @@ CLAIMED = {
    design='5 C01'),
  'C02': dict(
    text='Coq theorems on the same abstract machine: a sampling-only component (reads shared state, samples its own distributions) inserted at ANY position of the module list leaves every other '
-        'component`s private state and the shared state identical after any number of steps; two independent components may be listed in either order. On real sims: traces and seeds of the '
+        'component`s private state and the shared state identical after any number of steps; two independent components may be listed in either order, and disjoint read / write footprints over named arrays (Bernstein`s conditions) are proved sufficient for independence. On real sims: traces and seeds of the '
         'existing distributions are unchanged by every perturbation and equal seed_gen (Coq); results and agent states of the unperturbed modules are compared bit for bit between base and '
         'perturbed runs (sampling-only analyzers / interventions with 1..7 distributions, zero-coverage vaccination, zero-efficacy vaccine, extra independent SIS / SIR, reordered diseases).',
    note='PARTIAL for the same reason as C01: the premise that a real component sees only the draws of its own distributions is tied by pins and differential runs, not derived. Closed under the global context.',
